@@ -20,11 +20,12 @@ Definition orthogonal_w (tol : Q) (w : list Q) (phis : list (list Q)) : bool :=
 Definition eigen_equation (tol : Q) (w : list Q) (C : list (list Q)) (lams : list Q) (phis : list (list Q)) : bool :=
   all2 (fun l phi => vclose tol (mv opsQ C (vmul opsQ w phi)) (vscale opsQ l phi)) lams phis.
 (* phi_k = X^T v_k / r_k,  r_k^2 = l_k,  G v_k = l_k v_k *)
-Definition gram_route (tol : Q) (m : nat) (Xc G : list (list Q)) (ls rs : list Q) (vs phis : list (list Q)) : bool :=
+(* tolphi is on the scale of the eigenfunctions (unit-free), toll on the scale of the Gram eigenvalues *)
+Definition gram_route (tolphi toll : Q) (m : nat) (Xc G : list (list Q)) (ls rs : list Q) (vs phis : list (list Q)) : bool :=
   all2 (fun lr vp => let '(l, r) := lr in let '(v, phi) := vp in
-          vclose tol (gram_phi opsQ m Xc v r) phi
-          && qclose tol (r * r) l
-          && vclose tol (mv opsQ G v) (vscale opsQ l v))
+          vclose tolphi (gram_phi opsQ m Xc v r) phi
+          && qclose toll (r * r) l
+          && vclose toll (mv opsQ G v) (vscale opsQ l v))
        (combine ls rs) (combine vs phis).
 
 (* defect model for finding F1b: np.linalg.eig returns an arbitrary, non-orthogonal basis of the
